@@ -17,7 +17,9 @@ Ties (all compared inside Coq by vm_compute, model = coq/theories/Util.v):
   * end to end: shared scenario generator -> Acelyzer(...).run() with -c <log> --freq soc:core under several option
     sets; the model is evaluated on the kernel slices of the EXPORTED json and must reproduce pt_active of every
     kernel slice, the multiset of exported 'PT Active' counters and the csv the same run wrote.
-  * off-grid (supporting): 560:800 MHz style frequencies and decimal times, everything up to relative 1e-9.
+  * off-grid (supporting, ORACLE ONLY - no Coq comparison): 560:800 / 1000:1100 MHz style frequencies and decimal
+    times; pt_active / Percent up to relative 1e-12, csv sums up to relative 1e-9, Ideal_Cyc +-1 per summand
+    (int(ideal/factor) truncates a double quotient), row order not checked.
 Oracle (independent of the model, exact Fractions, from the generator's ground truth): per kernel slice pt_active =
 min(1, (cycles/core)/dur) iff listed with non-zero cycles, counter pair (100*pt_active at ts, 0 at ts+dur), none
 otherwise; csv: every slice counted once in its category (else 'other'), Total = sum of the category rows in all
@@ -31,9 +33,7 @@ import json
 import os
 import random
 import shutil
-import tempfile
 import time
-import zlib
 from fractions import Fraction
 
 from common import coqrun, enc
@@ -41,11 +41,72 @@ from common import coqrun, enc
 ID = "C11"
 PROP_FILE = "props/C11.v"
 MODEL_TARGETS = ["theories/Util.vo"]
-THEOREMS = []
+THEOREMS = ["C11_pt_active_value", "C11_pt_active_iff", "C11_kernel_slice_active", "C11_kernel_slice_idle",
+            "C11_active_without_stats", "C11_idle_without_stats", "C11_events_pointwise", "C11_non_kernel_untouched", "C11_run_events",
+            "C11_category_is_its_slices", "C11_slice_in_one_category", "C11_total_is_sum", "C11_calls_count",
+            "C11_csv_rows", "C11_csv_ratios", "C11_cell_rounding", "C11_ideal_cyc", "C11_parsed_tables_ok",
+            "C11_single_table", "C11_table_lookup"]
 ALLOWED_AXIOMS = []
-MANIFEST = {"text": "", "note": "", "technique": "", "design_ref": "DESIGN.md section 4/C11"}
-TRUSTED = []
-ASSUMPTIONS = []
+MANIFEST = {
+    "text": "Proof. Coq theorems over an executable model (Util.v) of the compiler-log table (parser state machine, "
+            "_add_kernel, category map), compute_utilization, make_utilization_event, calculate_stats' counter rule, "
+            "accumulate_categories / set_categories_for_pid and print_table_as_pd, for ALL tables, core frequencies "
+            "> 0, event sequences and ranks (no bound): pt_active = min(1, (cycles/core)/dur) (C11_pt_active_value), "
+            "positive iff the kernel is listed with non-zero cycles and dur is not ~0 (C11_pt_active_iff); an active "
+            "slice yields exactly the slice with pt_active, a 'PT Active' counter 100*pt_active at ts and 0 at "
+            "ts+dur, an idle one nothing but the slice (C11_kernel_slice_active/_idle; the same without the statistics "
+            "stage, -t: C11_active_without_stats, C11_idle_without_stats); the output stream is the in-order concatenation of the "
+            "per-event outputs, non-kernel events unchanged, no exception when 'Cmpt Exec' slices have dur > 0 "
+            "(C11_events_pointwise, C11_non_kernel_untouched, C11_run_events); after ANY event sequence every "
+            "category row of a rank holds exactly (time, ideal time, calls of) the kernel slices of that rank the "
+            "table files under it, unknown kernels under 'other' (C11_category_is_its_slices), each slice in exactly "
+            "one row (C11_slice_in_one_category), Total = sum of the category rows in all three components "
+            "(C11_total_is_sum), Total.Calls = number of kernel slices of the rank (C11_calls_count); the csv rows "
+            "are a sorted permutation of the table rows with Frac_Time/Frac_Ideal/PT_Util the stated ratios, "
+            "Ideal_Cyc the sum of the slices' cycles, printed cells within half a unit (C11_csv_rows, C11_csv_ratios, "
+            "C11_ideal_cyc, C11_cell_rounding); every parsed table meets the hypothesis of the category theorems "
+            "(C11_parsed_tables_ok); a log <no start> START <rows/junk> END <no start> yields exactly one table, in "
+            "which a kernel has the cycles of its first non-zero row and the category of its first row "
+            "(C11_single_table, C11_table_lookup). The model is tied to the code on every run: direct drive of the real "
+            "MultiRCUUtilizationContext / compute_utilization / calculate_stats on generated log TEXT and event "
+            "sequences with the csv read back, a parser-only stream, and end to end through Acelyzer -c <log> "
+            "--freq soc:core with the model evaluated on the exported slices.",
+    "note": "Print Assumptions: closed under the global context for all 20 theorems. Trusted: Coq kernel + "
+            "vm_compute; the hand-written model is tied by differential testing only; the regular expressions that "
+            "classify a log LINE are not modelled (the generator emits text plus its classification; a changed regex "
+            "shows as a different parsed table); fingerprint hashing / similarity (choice among several tables) is "
+            "outside the model - single-table logs only; double rounding not modelled: pt_active and Percent are "
+            "compared up to relative 2^-50, csv cells printed after round(.,4) as correct 4-decimal roundings, "
+            "everything else exactly (exact grid: core a power of two, times multiples of 2^-10). Hypothesis "
+            "no_total of the Total theorems excludes data rows WITHOUT -opCat/-NA token (the code files them under a "
+            "category literally named 'Total', counting them twice in the Total row: Example "
+            "C11_uncategorised_row_counts_twice). The category of a slice is overwritten later by "
+            "tb_refinement_lightweight, so end to end it is observable only through the csv.",
+    "technique": "Coq proof (induction over the event sequence with a key-set invariant on the per-rank tables, "
+                 "setoid reasoning on Q triples, permutation/sortedness of the stable insertion sort) + vm_compute "
+                 "correspondence against the real classes and Acelyzer end to end",
+    "design_ref": "DESIGN.md section 4/C11",
+}
+TRUSTED = [
+    "modelled, not verified: IEEE double rounding of ideal/dur, *100 and the csv ratios (compared up to relative "
+    "2^-50, resp. as correct roundings to 4 decimals); pandas DataFrame.sort_values(kind='stable') on several keys "
+    "taken as a stable lexicographic sort; to_csv prints round-trip floats",
+    "modelled, not verified: the regular expressions classifying a log line (_data_pattern, _ignore_pattern is "
+    "modelled on the name, _category_splitter is given as the split list); Python dict insertion order; "
+    "hash(fprint+pid) collision-free for the ranks of a run",
+    "fingerprint matching among several tables (RCUTableFingerprint hash/similarity) is outside the model: "
+    "single-table logs, for which every job is mapped to the one table",
+    "end-to-end tie reads the combined exported json; a kernel slice is an X event with args.TS1 whose "
+    "args.orig_name (else name) ends in 'Cmpt Exec'",
+]
+ASSUMPTIONS = [
+    "the compiler log holds exactly one finished ideal-cycle table (any rows, zero entries, ignored rows, junk)",
+    "core frequency > 0 (Acelyzer asserts it); kernel slices have dur > 0 when statistics are on (calculate_stats "
+    "asserts it)",
+    "every data row carries an -opCat<category> or -NA token (hypothesis no_total of the Total/Calls theorems)",
+    "both utilisation stages see the same events (they are separated only by the barrier), so every kernel slice's "
+    "job has a fingerprint",
+]
 
 COQ_IMPORTS = "From AiuModel Require Import Util."
 RUN_TY = "((cfg * list item * list uev) * val)"
@@ -270,6 +331,20 @@ def gen_case(rng, edge=False, all_zero=False):
             "events": gen_events(rng, items, edge=edge, stats=stats)}
 
 
+def gen_offgrid(rng):
+    """realistic decimals: 560:800 / 1000:1100 MHz, times with 3 decimals (supporting stream, oracle only)"""
+    c = gen_case(rng, edge=False)
+    c["core"] = rng.choice([800.0, 1100.0, 560.0, 1000.0, 933.3])
+    c["soc"] = rng.choice([560.0, 1000.0])
+    c["stats"] = True
+    c["offgrid"] = True
+    for e in c["events"]:
+        e["ts"] = round(e["ts"] + rng.randrange(1000) / 1000.0, 3)
+        if "dur" in e:
+            e["dur"] = round(e["dur"] * 1.001 + 0.001 * rng.randrange(1, 999), 3)
+    return c
+
+
 # ---------------------------------------------------------------- implementation driver
 class Crash(Exception):
     pass
@@ -330,8 +405,12 @@ def run_impl(case, workdir):
     q1, q2 = _quiet()
     try:
         with q1, q2:
-            ctx = ru.MultiRCUUtilizationContext(compiler_log=logp, csv_fname=outp, soc_freq=case["soc"],
-                                                core_freq=case["core"])
+            try:
+                ctx = ru.MultiRCUUtilizationContext(compiler_log=logp, csv_fname=outp, soc_freq=case["soc"],
+                                                    core_freq=case["core"], stats_enabled=case["stats"])
+            except TypeError:       # a tree without the stats_enabled parameter (before fix dbd55f3)
+                ctx = ru.MultiRCUUtilizationContext(compiler_log=logp, csv_fname=outp, soc_freq=case["soc"],
+                                                    core_freq=case["core"])
             ctx.enable()
             rc = ctx.rcuctx[0]
             if len(rc.kernel_cycles) != 1:
@@ -408,3 +487,594 @@ def coq_input(case):
 
 def coq_case(case, observed):
     return enc.P(coq_input(case), enc.V(observed)), "(VB true)"
+
+
+# ---------------------------------------------------------------- oracle (independent of the model; exact Fractions)
+F = Fraction
+CSV_HALF = F(1, 20000) + F(1, 10 ** 9)
+
+
+def fr(x):
+    return x if isinstance(x, Fraction) else (F(x) if isinstance(x, int) else F(*float(x).as_integer_ratio()))
+
+
+def is_kernel_ev(e):
+    return e.get("ph") == "X" and "TS1" in e.get("args", {}) and e["name"].endswith(CE)
+
+
+def resolved_name(e):
+    n = e["name"]
+    a = e.get("args", {})
+    if "[N]" in n and "fn_idx" in a:
+        n = n.replace("[N]", str(a["fn_idx"]), 1)
+    return n if n.endswith(CE) else n + " " + CE
+
+
+def expected_pt(truth, core, name, dur):
+    """min(1, (cycles/core)/dur) for a kernel listed with non-zero cycles, else None"""
+    cyc = truth[0].get(name, 0)
+    if cyc == 0:
+        return None
+    return min(F(1), (F(cyc) / fr(core)) / fr(dur))
+
+
+def close(a, b, rel=F(1, 10 ** 12)):
+    a, b = fr(a), fr(b)
+    return abs(a - b) <= rel * max(abs(a), abs(b))
+
+
+def oracle_direct(case, obs):
+    """-> list of failures ({expected, observed, signature}) of the property on the observed output of one case"""
+    truth = listed(case["items"])
+    if truth is None:
+        return []
+    evs = case["events"]
+    if any(e["ph"] == "X" and e.get("dur", 0) < 2.0 ** -20 for e in evs):
+        return []                                   # degenerate durations: tie only
+    if isinstance(obs, enc.Err):
+        return [{"expected": "run completes", "observed": repr(obs),
+                 "signature": {"kind": "run_aborts", "exc": obs.tag}}]
+    core, stats = case["core"], case["stats"]
+    tblv, evv, catv, csvv = obs
+    fails = []
+    # --- the event stream
+    exp = []
+    for e in evs:
+        if not is_kernel_ev(e):
+            exp.append(("pass", e))
+            continue
+        kn = resolved_name(e)
+        pt = expected_pt(truth, core, kn, e["dur"])
+        exp.append(("kern", e, pt, truth[1].get(kn, "other")))
+        if pt is not None:      # with or without the statistics stage: the pair, no helper dur left
+            exp.append(("cnt", e["pid"], fr(e["ts"]), 100 * pt, None))
+            exp.append(("cnt", e["pid"], fr(e["ts"]) + fr(e["dur"]), F(0), None))
+    if len(exp) != len(evv):
+        kinds = [("C" if x[0] == "cnt" else "E") for x in exp]
+        got = [("C" if (o[0] == "C" and o[1] == "PT Active" and len(o) == 6) else "E") for o in evv]
+        fails.append({"expected": {"shape (E = event, C = PT Active counter)": "".join(kinds),
+                                   "events": [[x[0]] + ([x[1]["name"], x[2] if x[0] == "pass" or x[2] is None
+                                                         else float(x[2])] if x[0] != "cnt"
+                                                        else [x[1], float(x[2]), float(x[3])]) if x[0] != "pass"
+                                              else ["pass", x[1]["name"]] for x in exp][:12]},
+                      "observed": {"shape": "".join(got), "events": [list(o) for o in evv][:12]},
+                      "signature": {"kind": "event_stream_wrong", "what": "number or order of returned events",
+                                    "more_counters": got.count("C") > kinds.count("C"),
+                                    "fewer_counters": got.count("C") < kinds.count("C")}})
+    else:
+        for x, o in zip(exp, evv):
+            if x[0] == "cnt":
+                ok = (len(o) == 6 and o[0] == "C" and o[1] == "PT Active" and o[2] == x[1] and
+                      (fr(o[3]) == x[2] or (case.get("offgrid") and close(o[3], x[2])))
+                      and close(o[4], x[3]) and (o[5] is None) == (x[4] is None) and
+                      (x[4] is None or fr(o[5]) == fr(x[4])))
+                if not ok:
+                    fails.append({"expected": ["C", "PT Active", x[1], str(x[2]), str(x[3]), x[4]], "observed": o,
+                                  "signature": {"kind": "counter_wrong",
+                                                "at_end": x[3] == 0, "value_ok": len(o) == 6 and close(o[4], x[3])
+                                                if len(o) == 6 and not isinstance(o[4], (str, type(None))) else False}})
+            elif x[0] == "pass":
+                e = x[1]
+                want = [e["ph"], e["name"], e["pid"], e["ts"], e.get("dur", 0), None, None, e.get("cat"), None]
+                if list(o) != want:
+                    fails.append({"expected": want, "observed": o, "signature": {"kind": "non_kernel_event_changed"}})
+            else:
+                _, e, pt, cat = x
+                if len(o) != 9 or o[:5] != [e["ph"], e["name"], e["pid"], e["ts"], e["dur"]]:
+                    fails.append({"expected": [e["ph"], e["name"], e["pid"], e["ts"], e["dur"]], "observed": o,
+                                  "signature": {"kind": "kernel_slice_changed"}})
+                    continue
+                got = o[5]
+                if (pt is None) != (got is None) or (pt is not None and not close(got, pt)) or \
+                        ((pt is not None) != (o[6] is True)):
+                    fails.append({"expected": {"pt_active": None if pt is None else float(pt), "kernel": e["name"],
+                                               "dur": e["dur"], "core": core},
+                                  "observed": {"pt_active": got, "core used": o[6]},
+                                  "signature": {"kind": "pt_active_wrong", "expected_present": pt is not None,
+                                                "observed_present": got is not None,
+                                                "clamped": pt == 1}})
+                wcat = [e["cat"], cat] if "cat" in e else [cat, None]
+                if [o[7], o[8]] != wcat:
+                    fails.append({"expected": wcat, "observed": [o[7], o[8]],
+                                  "signature": {"kind": "category_wrong", "had_cat": "cat" in e}})
+    # --- the csv
+    ks = [{"pid": e["pid"], "name": resolved_name(e), "dur": e["dur"]} for e in evs if is_kernel_ev(e)]
+    fails += oracle_csv(ks, csvv, truth, core, tolerant=bool(case.get("offgrid")))
+    return fails
+
+
+def oracle_csv(ks, rows, truth, core, tolerant=False):
+    """ks: kernel slices (pid, resolved name, dur); rows: the csv as read back (or None).
+    tolerant (off-grid stream): sums are double sums (relative 1e-9) and int(ideal/factor) may lose one unit per
+    summand to truncation"""
+    fails = []
+
+    def same_t(a, b):
+        return a == b if not tolerant else close(a, b, F(1, 10 ** 9))
+
+    def same_c(a, b, n=1):
+        return a == b if not tolerant else abs(a - b) <= n
+    if not ks:
+        if rows:
+            fails.append({"expected": "no csv", "observed": rows[:3], "signature": {"kind": "csv_without_kernels"}})
+        return fails
+    if rows is None or (rows and rows[0] == "bad header"):
+        return [{"expected": "categories csv", "observed": rows, "signature": {"kind": "csv_missing"}}]
+    core = fr(core)
+    total_cat = "Total" in truth[1].values()
+    pids = sorted({k["pid"] for k in ks})
+    if sorted({r[0] for r in rows}) != pids:
+        fails.append({"expected": pids, "observed": sorted({r[0] for r in rows}),
+                      "signature": {"kind": "csv_rank_set_wrong"}})
+        return fails
+    order = [(r[0], r[3]) for r in rows]
+    if order != sorted(order) and not tolerant:
+        fails.append({"expected": "rows sorted by (Pid, Kernel_Time)", "observed": [(a, float(b)) for a, b in order],
+                      "signature": {"kind": "csv_order_wrong"}})
+    ncalls = 0
+    for p in pids:
+        pr = [r for r in rows if r[0] == p]
+        names = [r[2] for r in pr]
+        want = {"Total", "StcdpHbm", "other"} | set(truth[1].values())
+        if len(set(names)) != len(names) or set(names) != want:
+            fails.append({"expected": sorted(want), "observed": names, "signature": {"kind": "csv_category_set_wrong"}})
+            continue
+        mine = [k for k in ks if k["pid"] == p]
+        by = {r[2]: r for r in pr}
+        tot = by["Total"]
+        for c, r in by.items():
+            if c == "Total":
+                sl = mine
+                if total_cat:
+                    continue                # quirk: rows without category token are filed under 'Total' twice
+            else:
+                sl = [k for k in mine if truth[1].get(k["name"], "other") == c]
+            dur = sum((fr(k["dur"]) for k in sl), F(0))
+            cyc = sum(truth[0].get(k["name"], 0) for k in sl)
+            if not same_t(r[3], dur) or r[5] != len(sl) or not same_c(r[7], cyc) or \
+                    abs(r[6] - F(cyc) / core) > CSV_HALF * (2 if tolerant else 1):
+                fails.append({"expected": {"category": c, "Kernel_Time": float(dur), "Calls": len(sl),
+                                           "Ideal_Cyc": cyc, "Ideal_Time": float(F(cyc) / core)},
+                              "observed": [str(x) for x in r],
+                              "signature": {"kind": "csv_row_wrong", "total_row": c == "Total",
+                                            "time_ok": same_t(r[3], dur), "calls_ok": r[5] == len(sl),
+                                            "cycles_ok": same_c(r[7], cyc)}})
+            # ratios: the row's time against the Total row's time, ideal times from the table's cycles
+            ideal = F(cyc) / core
+            itot = F(sum(truth[0].get(k["name"], 0) for k in mine)) / core
+            for idx, nm, num, den in ((4, "Frac_Time", r[3], tot[3]), (8, "Frac_Ideal", ideal, itot),
+                                      (9, "PT_Util", ideal, r[3])):
+                if total_cat and idx != 9:
+                    continue            # the doubled Total row of the quirk is the denominator
+                wantv = F(0) if abs(den) <= F(1, 10 ** 9) else num / den
+                if abs(r[idx] - wantv) > CSV_HALF * (3 if tolerant else 1):
+                    fails.append({"expected": {nm: float(wantv), "category": c}, "observed": float(r[idx]),
+                                  "signature": {"kind": "csv_ratio_wrong", "column": nm}})
+        if not total_cat:
+            others = [r for c, r in by.items() if c != "Total"]
+            sums = [sum((r[i] for r in others), F(0)) for i in (3, 5, 7)]
+            if not (same_t(sums[0], tot[3]) and sums[1] == tot[5] and same_c(sums[2], tot[7], len(others))):
+                fails.append({"expected": {"Total": [str(s) for s in sums]},
+                              "observed": [str(tot[3]), str(tot[5]), str(tot[7])],
+                              "signature": {"kind": "csv_total_not_sum"}})
+        ncalls += tot[5]
+    if not total_cat and ncalls != len(ks):
+        fails.append({"expected": len(ks), "observed": ncalls, "signature": {"kind": "csv_calls_not_slice_count"}})
+    return fails
+
+
+def nontrivial_case(case):
+    """>= 2 categories receive a kernel slice and >= 1 slice has a non-zero utilisation"""
+    truth = listed(case["items"])
+    if truth is None:
+        return False
+    ks = [resolved_name(e) for e in case["events"] if is_kernel_ev(e)]
+    return len({truth[1].get(k, "other") for k in ks}) >= 2 and any(truth[0].get(k, 0) for k in ks)
+
+
+# ---------------------------------------------------------------- shrinking
+def shrink_direct(case, workdir, sig_kind, budget=40.0):
+    t0 = time.time()
+
+    def bad(c):
+        if listed(c["items"]) is None:
+            return False
+        fs = oracle_direct(c, run_impl(c, workdir))
+        return any(f["signature"]["kind"] == sig_kind for f in fs)
+    cur = dict(case)
+    changed = True
+    while changed and time.time() - t0 < budget:
+        changed = False
+        for key in ("events", "items"):
+            i = 0
+            while i < len(cur[key]) and time.time() - t0 < budget:
+                c2 = dict(cur)
+                c2[key] = cur[key][:i] + cur[key][i + 1:]
+                if bad(c2):
+                    cur, changed = c2, True
+                else:
+                    i += 1
+    return cur
+
+
+def failure_record(mode, case, f):
+    inp = {"mode": mode, "case": case}
+    if mode == "direct":
+        inp["log_text"] = log_text(case["items"])
+    return {"input": inp, "expected": f["expected"], "observed": f["observed"], "signature": f["signature"]}
+
+
+# ---------------------------------------------------------------- end to end
+E2E_OPTS = [[], [], ["--disable_tb"], ["--keep_names"], ["-M"], ["--drop_globals"], ["--keep_prep"], ["-O", "tid"],
+            ["-t"], ["-t"], ["-t", "--disable_tb"]]
+
+
+def readback_items(path):
+    """classification of the lines written by scenario.compiler_log (its format is fixed: name-opCatX <cycles>)"""
+    import re
+    items = []
+    for ln in open(path).read().split("\n"):
+        m = re.match(r"^(\S+?)-opCat(\S*) +(\d+) *$", ln)
+        if " Ideal/Total Cycles " in ln:
+            items.append(("start", 0))
+        elif "====== Perf Summary End ======" in ln:
+            items.append(("end", 0))
+        elif m and "-opCat" not in m.group(2):
+            items.append(("row", m.group(1), ["-opCat", m.group(2)], int(m.group(3)), 1, 0, 0))
+        else:
+            items.append(("junk", 0))
+    return items
+
+
+def gen_e2e(rng, workdir):
+    from common import scenario
+    shutil.rmtree(workdir, ignore_errors=True)
+    os.makedirs(workdir)
+    s = scenario.gen_scenario(rng, ranks=rng.choice([1, 1, 2, 3]), kernels=rng.randrange(2, 10),
+                              host=rng.randrange(0, 3), zero_dur=False)
+    inp = scenario.write(s, os.path.join(workdir, "in"))
+    logp = os.path.join(workdir, "compiler.log")
+    names = sorted({t["name"].rsplit(" " + CE, 1)[0] for t in s.truth.values() if t["kind"] == CE})
+    r = rng.random()
+    if r < 0.4:
+        force = rng.choice([None, None, None, "all_zero", "empty"])
+        scenario.compiler_log(s, logp, rng, allow_zero_total=True, force=force)
+        items = readback_items(logp)
+        text = open(logp).read()
+    else:
+        pool = [n for n in names if rng.random() < 0.8] + rng.sample(KPOOL, rng.randrange(0, 3))
+        items = gen_log(rng, edge=rng.random() < 0.3, all_zero=rng.random() < 0.1, pool=pool or ["add_11"])
+        text = log_text(items)
+        open(logp, "w").write(text)
+    core = rng.choice(CORES)
+    opts = rng.choice(E2E_OPTS)
+    return {"files": {fn: evs for fn, evs in s.files.items()}, "freq": s.freq, "core": core, "opts": opts,
+            "items": items, "text": text, "summary": s.summary()}
+
+
+def run_e2e(ec, workdir):
+    """-> (observed value for the tie | enc.Err, model input case, kernel slices for the oracle, counters)"""
+    from common import e2e
+    shutil.rmtree(workdir, ignore_errors=True)
+    os.makedirs(os.path.join(workdir, "in"))
+    paths = []
+    for fn, evs in ec["files"].items():
+        p = os.path.join(workdir, "in", fn)
+        json.dump(evs, open(p, "w"))
+        paths.append(p)
+    logp = os.path.join(workdir, "compiler.log")
+    open(logp, "w").write(ec["text"])
+    out = os.path.join(workdir, "out.json")
+    argv = ["-i", ",".join(paths), "-o", out, "-c", logp, "--freq", f"{ec['freq']}:{ec['core']}"] + list(ec["opts"])
+    r = e2e.run_inproc(argv, out, quiet=True)
+    gc.collect()
+    if not r.ok() or r.events is None:
+        return enc.Err((r.exc or ("exit", str(r.rc), ""))[0]), None, None, None
+    ks, cnts, mevs = [], [], []
+    for e in r.events:
+        a = e.get("args", {}) or {}
+        if e.get("ph") == "X" and "TS1" in a:
+            nm = a.get("orig_name", e["name"])
+            if nm.endswith(CE):
+                ks.append({"pid": e["pid"], "name": nm, "ts": e["ts"], "dur": e["dur"], "pt": a.get("pt_active"),
+                           "core_used": a.get("core used")})
+                mevs.append({"ph": "X", "name": nm, "pid": e["pid"], "ts": e["ts"], "dur": e["dur"],
+                             "args": {"TS1": "1", "job": 0}})
+        elif e.get("ph") == "C" and e.get("name") == "PT Active":
+            cnts.append([e["pid"], e["ts"], a.get("Percent"), "dur" in e or "dur" in a])
+    csvp = os.path.join(workdir, "out_categories.csv")
+    csvv = read_csv(csvp) if os.path.exists(csvp) else None
+    obs = [[[k["pid"], k["ts"], k["dur"], k["pt"], k["core_used"]] for k in ks],
+           [c[:3] for c in sorted(cnts, key=lambda c: (c[0], c[1], c[2]))], csvv]
+    mcase = {"items": ec["items"], "core": ec["core"], "stats": "-t" not in ec["opts"], "events": mevs}
+    return obs, mcase, ks, (cnts, csvv)
+
+
+def oracle_e2e(ec, ks, cnts, csvv):
+    truth = listed(ec["items"])
+    fails = []
+    core = ec["core"]
+    want_c = []
+    for k in ks:
+        pt = expected_pt(truth, core, k["name"], k["dur"])
+        got = k["pt"]
+        if (pt is None) != (got is None) or (pt is not None and not close(got, pt)) or \
+                ((pt is not None) != (k["core_used"] is True)):
+            fails.append({"expected": {"pt_active": None if pt is None else float(pt), "kernel": k["name"],
+                                       "dur": k["dur"], "core": core},
+                          "observed": {"pt_active": got, "core used": k["core_used"]},
+                          "signature": {"kind": "pt_active_wrong", "expected_present": pt is not None,
+                                        "observed_present": got is not None, "clamped": pt == 1}})
+        if pt is not None:
+            want_c += [(k["pid"], fr(k["ts"]), 100 * pt), (k["pid"], fr(k["ts"]) + fr(k["dur"]), F(0))]
+    have = sorted(((c[0], fr(c[1]), fr(c[2])) for c in cnts))
+    want_c.sort()
+    okc = len(have) == len(want_c) and all(a[0] == b[0] and a[1] == b[1] and close(a[2], b[2])
+                                           for a, b in zip(have, want_c))
+    if not okc or any(c[3] for c in cnts):
+        fails.append({"expected": [(p, float(t), float(v)) for p, t, v in want_c][:12],
+                      "observed": [(p, float(t), float(v)) for p, t, v in have][:12],
+                      "signature": {"kind": "counter_wrong", "n_expected": len(want_c) - len(have) if not okc else 0,
+                                    "helper_dur_exported": any(c[3] for c in cnts)}})
+    fails += oracle_csv([{"pid": k["pid"], "name": k["name"], "dur": k["dur"]} for k in ks], csvv, truth, core)
+    return fails
+
+
+# ---------------------------------------------------------------- corpus
+def load_corpus():
+    d = os.path.join(coqrun.VERIF, "corpus", ID)
+    out = []
+    if os.path.isdir(d):
+        for fn in sorted(os.listdir(d)):
+            if fn.endswith(".json"):
+                c = json.load(open(os.path.join(d, fn)))
+                c["items"] = [tuple(i) for i in c["items"]]
+                c["_file"] = fn
+                out.append(c)
+    return out
+
+
+def canon(case):
+    return json.dumps({k: case[k] for k in ("items", "core", "stats", "events")}, sort_keys=True, default=str)
+
+
+# ---------------------------------------------------------------- check
+def run(ctx):
+    rng = ctx.rng
+    work = os.path.join(ctx.work, "w")
+    dist = {"direct": {"cases": 0, "edge": 0, "all_zero_table": 0, "stats_off": 0, "events": {}, "rows": {},
+                       "pids": {}, "core": {}, "errors": {}},
+            "parser": {"logs": 0}, "e2e": {"scenarios": 0, "options": {}, "ranks": {}, "kernel_slices": 0,
+                                           "all_zero_or_empty_table": 0, "aborted": 0}}
+    oracle_failures, mism, ties, samples = [], [], [], []
+    seen, nontriv = set(), 0
+
+    # ---- direct stream (corpus first)
+    cases = load_corpus()
+    n_corpus = len(cases)
+    for i in range(ctx.pick(420, 5000)):
+        az = (i % 25 == 7)
+        cases.append(gen_case(rng, edge=(i % 5 == 4), all_zero=az))
+    terms = []
+    for i, c in enumerate(cases):
+        obs = run_impl(c, work)
+        terms.append(coq_case(c, obs))
+        d = dist["direct"]
+        d["cases"] += 1
+        d["edge"] += int(i >= n_corpus and (i - n_corpus) % 5 == 4)
+        d["stats_off"] += int(not c["stats"])
+        tr = listed(c["items"])
+        d["all_zero_table"] += int(tr is not None and tr[2] == 0)
+        _bump(d["events"], min(len(c["events"]), 12))
+        _bump(d["rows"], min(sum(1 for it in c["items"] if it[0] == "row"), 12))
+        _bump(d["pids"], len({e["pid"] for e in c["events"]}))
+        _bump(d["core"], c["core"])
+        if isinstance(obs, enc.Err):
+            _bump(d["errors"], obs.tag)
+        key = canon(c)
+        if key not in seen:
+            seen.add(key)
+            nontriv += int(nontrivial_case(c))
+        for f in oracle_direct(c, obs)[:2]:
+            if len(oracle_failures) < 6:
+                oracle_failures.append(("direct", c, f))
+    bad, extras, secs = coqrun.run_cases(
+        "C11_direct", COQ_IMPORTS, RUN_TY, "run_check", terms, shard=40,
+        extra="Local Open Scope nat_scope.\nDefinition nt := Eval vm_compute in "
+              "(count_if (fun c => nontrivial (fst c)) cases).\nPrint nt.")
+    ties.append({"name": "Util.run_val = MultiRCUUtilizationContext + compute_utilization(+fingerprints) + "
+                         "calculate_stats counter rule + categories csv (direct drive)",
+                 "cases": len(cases), "corpus": n_corpus, "mismatching": len(bad), "coq_seconds": round(secs, 1)})
+    for j in bad[:4]:
+        parts = None
+        try:
+            parts = coqrun.eval_terms("C11_diag", COQ_IMPORTS, ["run_diff " + terms[j][0]])[0]
+        except Exception:  # noqa: BLE001
+            pass
+        mism.append({"name": "correspondence Util.run_val vs rcu_utilization/stats (direct drive)",
+                     "case": {k: cases[j][k] for k in ("items", "core", "soc", "stats", "events")},
+                     "log_text": log_text(cases[j]["items"]),
+                     "agreeing_parts[table,events,categories,csv]": parts})
+    samples += [{"log": log_text(cases[j]["items"]).split("\n")[:14], "core": cases[j]["core"],
+                 "events": cases[j]["events"][:3]} for j in (n_corpus, len(cases) - 1)]
+
+    # ---- parser stream: logs only
+    pterms, plogs = [], []
+    for i in range(ctx.pick(500, 6000)):
+        items = gen_log(rng, edge=(i % 2 == 1), all_zero=(i % 40 == 3))
+        core = rng.choice(CORES)
+        c = {"items": items, "core": core, "soc": 1024.0, "stats": False, "events": []}
+        obs = run_impl(c, work)
+        pobs = obs if isinstance(obs, enc.Err) else [obs[0]]
+        if isinstance(obs, enc.Err) and obs.tag == "not_single_table":
+            pobs = None
+        plogs.append(c)
+        if pobs is None:
+            continue
+        pterms.append((enc.P(enc.P(enc.Q(core), enc.L([coq_item(it) for it in items])), enc.V(pobs)), "(VB true)"))
+        dist["parser"]["logs"] += 1
+    pbad, _, psecs = coqrun.run_cases("C11_parser", COQ_IMPORTS, "((Q * list item) * val)", "parse_check", pterms,
+                                      shard=100)
+    ties.append({"name": "Util.parse_val = RCUUtilizationContext.extract_tables (table, category map, phase, "
+                         "fingerprint total) on generated log text", "cases": len(pterms),
+                 "mismatching": len(pbad), "coq_seconds": round(psecs, 1)})
+    for j in pbad[:3]:
+        mism.append({"name": "correspondence Util.parse_val vs extract_tables", "log_text": log_text(plogs[j]["items"]),
+                     "case": {"items": plogs[j]["items"], "core": plogs[j]["core"]}})
+
+    # ---- off-grid stream (supporting; oracle only, no Coq comparison)
+    dist["offgrid"] = {"cases": 0, "core": {}}
+    for i in range(ctx.pick(120, 2000)):
+        c = gen_offgrid(rng)
+        obs = run_impl(c, work)
+        dist["offgrid"]["cases"] += 1
+        _bump(dist["offgrid"]["core"], c["core"])
+        for f in oracle_direct(c, obs)[:1]:
+            if len(oracle_failures) < 6:
+                oracle_failures.append(("direct", c, f))
+
+    # ---- end to end
+    eterms, ecases = [], []
+    ework = os.path.join(ctx.work, "e2e")
+    for i in range(ctx.pick(60, 700)):
+        ec = gen_e2e(rng, ework)
+        obs, mcase, ks, rest = run_e2e(ec, ework)
+        d = dist["e2e"]
+        d["scenarios"] += 1
+        _bump(d["options"], " ".join(ec["opts"]) or "(default)")
+        _bump(d["ranks"], ec["summary"]["ranks"])
+        tr = listed(ec["items"])
+        d["all_zero_or_empty_table"] += int(tr is not None and tr[2] == 0)
+        if isinstance(obs, enc.Err):
+            d["aborted"] += 1
+            if len(oracle_failures) < 6:
+                oracle_failures.append(("e2e", ec, {"expected": "run completes (exit 0, output written)",
+                                                   "observed": repr(obs),
+                                                   "signature": {"kind": "run_aborts", "exc": obs.tag}}))
+            continue
+        d["kernel_slices"] += len(ks)
+        ecases.append(ec)
+        eterms.append((enc.P(coq_input(mcase), enc.V(obs)), "(VB true)"))
+        key = canon(mcase)
+        if key not in seen:
+            seen.add(key)
+            nontriv += int(nontrivial_case(mcase))
+        for f in oracle_e2e(ec, ks, rest[0], rest[1])[:2]:
+            if len(oracle_failures) < 6:
+                oracle_failures.append(("e2e", ec, f))
+    ebad, _, esecs = coqrun.run_cases("C11_e2e", COQ_IMPORTS, RUN_TY, "e2e_check", eterms, shard=10)
+    ties.append({"name": "Util.e2e_val on the exported kernel slices = pt_active per slice, 'PT Active' counter "
+                         "multiset and <out>_categories.csv of the same Acelyzer run (-c log --freq soc:core)",
+                 "cases": len(eterms), "mismatching": len(ebad), "coq_seconds": round(esecs, 1)})
+    for j in ebad[:3]:
+        mism.append({"name": "correspondence Util.e2e_val vs Acelyzer end to end",
+                     "case": {k: ecases[j][k] for k in ("freq", "core", "opts", "summary")},
+                     "log_text": ecases[j]["text"]})
+    shutil.rmtree(ework, ignore_errors=True)
+
+    # ---- failing inputs: shrink the direct ones
+    out_fail = []
+    for mode, c, f in oracle_failures[:4]:
+        if mode == "direct":
+            small = shrink_direct(c, work, f["signature"]["kind"], budget=ctx.pick(25.0, 90.0))
+            fs = [g for g in oracle_direct(small, run_impl(small, work))
+                  if g["signature"]["kind"] == f["signature"]["kind"]]
+            g = fs[0] if fs else f
+            small = {k: small[k] for k in ("items", "core", "soc", "stats", "events", "offgrid") if k in small}
+            out_fail.append(failure_record("direct", small, g))
+        else:
+            out_fail.append(failure_record("e2e", {k: c[k] for k in ("files", "freq", "core", "opts", "items",
+                                                                      "text")}, f))
+    shutil.rmtree(work, ignore_errors=True)
+    n_eval = len(cases) + len(pterms) + len(eterms) + dist["offgrid"]["cases"]
+    return {
+        "evaluations": n_eval, "distinct_nontrivial": nontriv,
+        "rule": "non-trivial = distinct (log classification, core, stats, event list) of the direct and end-to-end "
+                "streams in which the kernel slices fall into >= 2 categories of the table and >= 1 slice has a "
+                "kernel listed with non-zero cycles (counted in Python from the generator's ground truth; the same "
+                f"rule on the model's result, evaluated inside Coq over the direct stream incl. duplicates: "
+                f"{extras.get('nt')}); parser-only logs are not counted",
+        "samples": samples, "mismatches": mism, "oracle_failures": out_fail, "ties": ties, "distribution": dist,
+        "traces_validated_against_impl": n_eval,
+    }
+
+
+def search(ctx, res, broken):
+    """something broke but the run's oracle was silent: oracle on a fresh, larger direct stream + some end to end"""
+    r = random.Random(ctx.seed + 101)
+    work = os.path.join(ctx.work, "s")
+    t0 = time.time()
+    lim = ctx.pick(90, 600)
+    try:
+        for i in range(ctx.pick(4000, 50000)):
+            if time.time() - t0 > lim:
+                break
+            c = gen_case(r, edge=(i % 3 == 2), all_zero=(i % 20 == 5))
+            fs = oracle_direct(c, run_impl(c, work))
+            if fs:
+                small = shrink_direct(c, work, fs[0]["signature"]["kind"], budget=30.0)
+                gs = [g for g in oracle_direct(small, run_impl(small, work))
+                      if g["signature"]["kind"] == fs[0]["signature"]["kind"]]
+                small = {k: small[k] for k in ("items", "core", "soc", "stats", "events")}
+                return [failure_record("direct", small, gs[0] if gs else fs[0])]
+            if i % 40 == 0:
+                ec = gen_e2e(r, work + "e")
+                obs, mcase, ks, rest = run_e2e(ec, work + "e")
+                if isinstance(obs, enc.Err):
+                    fs = [{"expected": "run completes", "observed": repr(obs),
+                           "signature": {"kind": "run_aborts", "exc": obs.tag}}]
+                else:
+                    fs = oracle_e2e(ec, ks, rest[0], rest[1])
+                if fs:
+                    return [failure_record("e2e", {k: ec[k] for k in ("files", "freq", "core", "opts", "items",
+                                                                      "text")}, fs[0])]
+    finally:
+        shutil.rmtree(work, ignore_errors=True)
+        shutil.rmtree(work + "e", ignore_errors=True)
+    return []
+
+
+def replay(ctx, payload):
+    f = payload.get("failing")
+    if not f:
+        return True, "replay file names only broken obligations: " + str(payload.get("broken"))[:500]
+    inp = f["input"]
+    work = os.path.join(ctx.work, "r")
+    try:
+        c = inp["case"]
+        c["items"] = [tuple(i) for i in c["items"]]
+        if inp["mode"] == "direct":
+            obs = run_impl(c, work)
+            fs = oracle_direct(c, obs)
+        else:
+            obs, mcase, ks, rest = run_e2e(c, work)
+            if isinstance(obs, enc.Err):
+                fs = [{"expected": "run completes", "observed": repr(obs),
+                       "signature": {"kind": "run_aborts", "exc": obs.tag}}]
+            else:
+                fs = oracle_e2e(c, ks, rest[0], rest[1])
+        return (not fs), {"failures": [{"expected": g["expected"], "observed": g["observed"],
+                                        "signature": g["signature"]} for g in fs[:3]],
+                          "observed": str(obs)[:1500]}
+    finally:
+        shutil.rmtree(work, ignore_errors=True)
